@@ -106,6 +106,12 @@ class IntervalInterp:
             v = self.ev(s.value, env)
             for t in s.targets:
                 self.bind(t, v, env)
+                if isinstance(t, ast.Name):
+                    # `x = y`: x holds what y holds until either is bound again
+                    for k_ in [k_ for k_, src_ in env.items() if isinstance(k_, str) and k_.startswith("$copy:") and (k_ == "$copy:" + t.id or src_ == t.id)]:
+                        del env[k_]
+                    if isinstance(s.value, ast.Name) and s.value.id != t.id:
+                        env["$copy:" + t.id] = s.value.id
             if len(s.targets) == 1 and isinstance(s.targets[0], ast.Name) and _is_mask_expr(s.value):
                 env["$mask:" + s.targets[0].id] = s.value          # m = (x < a) | (x > b): read again where m.any() is tested
             if isinstance(s.value, ast.JoinedStr) and len(s.targets) == 1 and isinstance(s.targets[0], ast.Name):
@@ -319,6 +325,10 @@ class IntervalInterp:
                 tbl = self.ev(test.comparators[0], env)
                 if isin and tbl.member is not None and test.left.id in env:
                     env[test.left.id] = AV(min(tbl.member), max(tbl.member), env[test.left.id].kind, frozenset(tbl.member))
+                    for k_, src_ in list(env.items()):
+                        # `valid = requested` made before the test: the copy holds the same (now known) value
+                        if isinstance(k_, str) and k_.startswith("$copy:") and src_ == test.left.id and k_[6:] in env and isinstance(env[k_[6:]], AV):
+                            env[k_[6:]] = env[test.left.id]
                 return True
             if len(test.ops) == 1 and isinstance(test.ops[0], (ast.Is, ast.IsNot)):
                 return True
@@ -417,7 +427,13 @@ class IntervalInterp:
         ops = {ast.Lt: "<", ast.LtE: "<=", ast.Gt: ">", ast.GtE: ">="}
         o = ops.get(type(op))
         if o is None:
-            return isinstance(op, (ast.Eq, ast.NotEq))      # equality with a constant: read, nothing to narrow
+            if isinstance(op, (ast.Eq, ast.NotEq)) and isinstance(name, ast.Name) and isinstance(env.get(name.id), AV) and env[name.id].note == "int-remainder":
+                # a non-negative integer remainder compared with 0: `r != 0` holding (or `r == 0` failing) leaves r >= 1, the other way r = 0
+                cur = env[name.id]
+                nonzero = pol if isinstance(op, ast.NotEq) else not pol
+                if bound == 0 and cur.lo >= 0:
+                    env[name.id] = cur.copy(lo=max(cur.lo, 1)) if nonzero else cur.copy(lo=0, hi=0)
+            return isinstance(op, (ast.Eq, ast.NotEq))      # equality with a constant: read, nothing else to narrow
         if flipped:
             o = {"<": ">", "<=": ">=", ">": "<", ">=": "<="}[o]
         if not pol:
@@ -611,7 +627,7 @@ class IntervalInterp:
             return self.summaries[n.func.attr]
         last = name.split(".")[-1]
         callee = None
-        if base is not None and isinstance(base, ast.Name) and base.id == "self" and n.func.attr in self.functions and n.func.attr not in self.query_names:
+        if base is not None and isinstance(base, ast.Name) and base.id in ("self", "cls") and n.func.attr in self.functions and n.func.attr not in self.query_names:
             callee = self.functions[n.func.attr]
         elif isinstance(n.func, ast.Name) and n.func.id in self.functions:
             callee = self.functions[n.func.id]
@@ -769,6 +785,9 @@ class IntervalInterp:
                 if val.kind == "str" and val.parts is not None:
                     # a number rendered first and interpolated as text: f'{x / 1e-12:.1f}e-12' is x rounded on the 0.1e-12 grid
                     sc = _scaled_number(val.parts)
+                    if sc is None and v.format_spec is None and v.conversion in (-1, 115):
+                        parts.extend(val.parts)          # a piece of the command built in a local f-string (header = f'#{k}{n}') and put in as it is
+                        continue
                     val = sc if sc is not None else AV(kind="str", opaque=True)
                 elif val.kind == "str" and val.member is None and val.text is None:
                     val = val.copy(opaque=True)
@@ -837,6 +856,25 @@ class IntervalInterp:
                     terms.append(self._desugar_test(_subst_names(test.args[0].elt, sub)))
                 new = ast.BoolOp(op=ast.Or() if test.func.id == "any" else ast.And(), values=terms) if len(terms) > 1 else terms[0]
                 return ast.copy_location(new, test)
+        # a predicate helper - a private function / method whose body is `return <test>` - stands for its test with the arguments put in:
+        # self._any_outside(x, lo, hi)  ->  (x < lo).any() or (x > hi).any()
+        if isinstance(test, ast.Call) and not test.keywords and not any(isinstance(a_, ast.Starred) for a_ in test.args):
+            hname = None
+            if isinstance(test.func, ast.Attribute) and isinstance(test.func.value, ast.Name) and test.func.value.id in ("self", "cls"):
+                hname = test.func.attr
+            elif isinstance(test.func, ast.Name):
+                hname = test.func.id
+            callee = self.functions.get(hname) if hname and hname not in self.query_names else None
+            if callee is not None and callee.args.vararg is None and callee.args.kwarg is None and getattr(self, "_desugar_depth", 0) < 3:
+                body = [s_ for s_ in callee.body if not (isinstance(s_, ast.Expr) and isinstance(s_.value, ast.Constant))]
+                params = [a_.arg for a_ in callee.args.posonlyargs + callee.args.args if a_.arg not in ("self", "cls")]
+                if len(body) == 1 and isinstance(body[0], ast.Return) and body[0].value is not None and len(params) == len(test.args) \
+                        and isinstance(body[0].value, (ast.BoolOp, ast.Compare, ast.UnaryOp, ast.Call)):
+                    self._desugar_depth = getattr(self, "_desugar_depth", 0) + 1
+                    try:
+                        return ast.copy_location(self._desugar_test(_subst_names(body[0].value, dict(zip(params, test.args)))), test)
+                    finally:
+                        self._desugar_depth -= 1
         if isinstance(test, ast.Call) and isinstance(test.func, ast.Attribute) and test.func.attr in ("any", "all") and not test.args:
             inner = self._desugar_test(test.func.value)
             if inner is not test.func.value:
